@@ -497,18 +497,19 @@ class PostMortemCheck(Target):
             ('restarted-component-is-not-finalised', (len(fin) == 0) if initiated else True),
             ('final-states-only', all(s in (codes.FINISHED_STATE, codes.FAILED_STATE, codes.SHUTDOWN_STATE) for s in fin)),
         ]
-        if not initiated and fin:
+        if not initiated and g.get('restart_result') is None:
+            # the handling itself failed (an exception before the restart decision): the component must end up failed
+            clauses.append(('exception-means-failed', bool(fin) and fin[0] == codes.FAILED_STATE))
+        elif not initiated and fin:
             first = fin[0]
             success = _eq(reason, ER['Success'])
             in_shutdown = False if reason is None else _listed(st.shutdown_on, reason)
-            if g.get('restart_result') is not None:
+            if True:
                 # documented rule: success -> finished, reason on the shutdown list -> shut down, else failed
                 clauses.append(('final-state-rule', And(
                     Iff(success, first == codes.FINISHED_STATE),
                     Iff(And(Not(success), in_shutdown), first == codes.SHUTDOWN_STATE),
                     Iff(And(Not(success), Not(in_shutdown)), first == codes.FAILED_STATE))))
-            else:
-                clauses.append(('exception-means-failed', first == codes.FAILED_STATE))
         return clauses
 
 
